@@ -37,7 +37,8 @@ INDEX_LIB = {"np.where", "np.argsort", "np.isin", "np.in1d", "np.logical_and", "
 
 # Everything else is classified fail-closed: a library function or method that is in none of the tables is
 # treated as writing into its receiver / array arguments and returning an alias of them.
-PURE_LIBS = {"map_variable_str_to_variable_class", "map_standard_precipitation_method", "all", "any", "enumerate", "hasattr", "isinstance", "len", "list", "range", "round", "super", "type", "tuple", "dict", "zip", "iter", "reversed",
+PURE_LIBS = {"np.result_type", "np.promote_types", "np.can_cast", "np.dtype", "np.finfo", "np.iinfo", "np.shape", "np.ndim", "np.size", "np.isscalar",
+             "map_variable_str_to_variable_class", "map_standard_precipitation_method", "all", "any", "enumerate", "hasattr", "isinstance", "len", "list", "range", "round", "super", "type", "tuple", "dict", "zip", "iter", "reversed",
              "sorted", "partial", "tqdm", "map", "filter", "min", "max", "sum", "abs", "float", "int", "str", "bool", "repr", "print", "getattr", "issubclass", "callable", "id", "set", "frozenset",
              "ValueError", "TypeError", "NotImplementedError", "RuntimeError", "Exception", "Pool", "detrend", "child_class", "func", "step_function", "cls", "warning",
              "attrs.define", "attrs.field", "attrs.validators.gt", "attrs.validators.in_", "attrs.validators.instance_of", "attrs.validators.optional", "attrs.validators.ge", "attrs.validators.le", "attrs.validators.lt",
@@ -368,6 +369,8 @@ class Extractor:
                         return [("may", [recv] + argvars)]
                 if fn.attr in VIEW_METHODS:
                     return [("may", [recv])]
+                if fn.attr == "astype" and any(k.arg == "copy" for k in call.keywords):
+                    return [("may", [recv])]          # astype(..., copy=False) may return the array itself
                 return [("fresh",)]
         if ln in VIEW_FUNCS:
             return [("may", argvars)] if argvars else [("fresh",)]
